@@ -21,10 +21,17 @@ def main():
     for i in ids:
         assert (i in claimed) != (i in na), "property %s must be claimed xor not_applicable" % i
     env = "env GOFLAGS=-mod=mod GOPROXY=off GOSUMDB=off GOTOOLCHAIN=local GOWORK=off"
+    import subprocess
+    try:
+        registry = json.loads(subprocess.check_output(["/verif/bin/goyang-verif", "-props-json"]).decode())
+    except Exception:
+        registry = {}
     checks = []
     for i in ids:
         if i not in claimed: continue
         tech, text, note, ref = claimed[i]
+        if registry.get(i):
+            tech += ". Registered rules (from the checker's registry): " + ", ".join(registry[i])
         checks.append({
             "property_id": i,
             "quick_cmd": "/verif/bin/goyang-verif -prop %s -tier quick" % i,
@@ -50,11 +57,11 @@ def main():
             "name": "goyang-verif",
             "path": "/verif/checker",
             "serves_properties": [c["property_id"] for c in checks],
-            "kind_free_text": "repository-specific static analyser (go/packages + go/types + go/ssa + VTA call graph, x/tools v0.29.0): ~50 rules over typed AST, SSA dominance/provenance and call-graph effect summaries; no execution of goyang",
+            "kind_free_text": "repository-specific static analyser (go/packages + go/types + go/ssa + VTA call graph, x/tools v0.29.0): about 100 small rules over typed AST, SSA dominance/provenance and call-graph effect summaries; no execution of goyang",
         }],
         "checks": checks,
         "not_applicable": [{"property_id": i, "reason": na[i]} for i in ids if i in na],
-        "notes": "All claims are at level 'other': each check decides structural clauses that are necessary conditions of its property (listed in evidence.coverage.explanation and DESIGN.md section 4), never the behavioural property itself. Known genuine defects are in /verif/known_findings.json.",
+        "notes": "Quick = every rule of the property on the default configuration (1-2 s). Thorough = the same under four build configurations, the CHA recomputation of call-graph-dependent sets, and an in-memory sensitivity sweep (own variants and independent seeds of the property applied as go/packages overlays; informational, recorded in evidence.coverage.sensitivity_sweep). All claims are at level 'other': each check decides structural clauses that are necessary conditions of its property (listed in evidence.coverage.explanation and DESIGN.md section 4), never the behavioural property itself. Known genuine defects are in /verif/known_findings.json.",
     }
     json.dump(m, open("/verif/MANIFEST.json", "w"), indent=1)
     print("wrote MANIFEST.json: %d checks, %d not_applicable" % (len(checks), len(m["not_applicable"])))
